@@ -263,6 +263,33 @@ def case(i: int) -> dict:
     return {"i": i, "opt": opt, "cfg": cfg, "cfg_class": klass, "spec": spec, "mode": "serial", "workers": None}
 
 
+BATTERY_TASKS = [
+    {"vars": [["c", 0.0, 1.0]], "obj": [{"fam": "hinge", "p": {"tol": 30.0}}]},                                   # constant 0
+    {"vars": [["cm", [-10.0, -10.0, -10.0], [10.0, 10.0, 10.0]]], "obj": [{"fam": "hinge", "p": {"tol": 30.0}}]},  # constant 0
+    {"vars": [["c", 0.0, 5.0], ["c", -5.0, 0.0]], "obj": [{"fam": "sphere", "p": {"shift": 0.0}}]},               # optimum on zero bounds
+    {"vars": [["cm", [-10.0, -10.0, -10.0], [10.0, 10.0, 10.0]]], "obj": [{"fam": "plateau", "p": {"q": 2.0}}]},   # ties
+    {"vars": [["cm", [0.0, 0.0], [1000.0, 1000.0]]], "obj": [{"fam": "abs", "p": {"shift": 0.0}}]},                # optimum on zero bounds
+    {"vars": [["cm", [-5.0, -5.0, -5.0, -5.0], [5.0, 5.0, 5.0, 5.0]]], "obj": [{"fam": "hinge", "p": {"tol": 0.5}}]},  # zero region inside
+    {"vars": [["c", -1.0, 0.0]], "obj": [{"fam": "hinge", "p": {"tol": 30.0, "offset": -7.0}}]},                  # constant negative
+]
+
+
+def battery():
+    """pinned pathological battery: every optimizer x degenerate continuous tasks (constant objective, exact zeros, ties,
+    optima on zero bounds) x min/max; deterministic (seeded, serial), audited like the universe (audit/battery_v2.json)"""
+    out = []
+    for a, opt in enumerate(opt_names()):
+        base = dict(base_configs()[opt])
+        base["fitness_error"] = None
+        for t, task in enumerate(BATTERY_TASKS):
+            for d, minmax in enumerate(("min", "max")):
+                cfg = dict(base, max_cycles=(5, 13)[(t + d) % 2])
+                spec = {"vars": task["vars"], "obj": task["obj"], "weights": None, "minmax": minmax, "seed": 1000 * a + 10 * t + d}
+                out.append({"i": f"b{len(out)}", "opt": opt, "cfg": cfg, "cfg_class": "battery", "spec": spec, "mode": "serial",
+                            "workers": None})
+    return out
+
+
 EXT_SIZE = 60000
 
 
